@@ -34,7 +34,67 @@ def check(ctx, report):
     report.floor('C08.R1', 12, 'layout comparisons')
 
 
+from ..miniexec import Native
+
+
+def rfc4034_key_tag(rdata):
+    """RFC 4034 Appendix B (the C code, transcribed)"""
+    ac = 0
+    for i, byte in enumerate(rdata):
+        ac += byte if i & 1 else byte << 8
+    ac += (ac >> 16) & 0xffff
+    return ac & 0xffff
+
+
+def key_tag_samples(thorough):
+    """RDATA byte strings whose 16 bit word sums sit on both sides of every carry boundary, in even and odd lengths"""
+    out = []
+    sums = [0, 1, 0xfffe, 0xffff, 0x10000, 0x10001, 0x1fffe, 0x1ffff, 0x20000, 0x2fffe, 0x3fffe, 0x3ffff, 0x4ffff, 0x5fffa, 0xfffe1]
+    if thorough:
+        sums += [k * 0xffff + d for k in range(1, 40) for d in (-2, -1, 0, 1, 2)] + [k * 0x10000 + d for k in range(1, 40) for d in (-2, -1, 0, 1)]
+    def body_for(total):
+        words = []
+        rest = max(total, 0)
+        while rest > 0xffff:
+            words.append(0xffff)
+            rest -= 0xffff
+        words.append(rest)
+        return b''.join(w.to_bytes(2, 'big') for w in words)
+    for total in sums:
+        # the word sum of the whole RDATA (header words included) is ``total``
+        out.append(b'\x01\x01\x03\x0d' + body_for(total - 0x0101 - 0x030d))           # flags 257, protocol 3, algorithm 13
+        for tail in (0x00, 0x01, 0x80, 0xff):
+            out.append(b'\x01\x00\x03\x08' + body_for(total - 0x0100 - 0x0308 - (tail << 8)) + bytes([tail]))
+    return out
+
+
+class _TagParser(Native):
+    def __init__(self, data, order):
+        self.data, self.pos, self.order, self.values = bytes(data), 0, order, {}
+
+    @property
+    def unparsed_length(self):
+        return len(self.data) - self.pos
+
+    @property
+    def parsed_length(self):
+        return self.pos
+
+    def parse_numeric(self, name, size):
+        if self.pos + size > len(self.data):
+            from ..miniexec import Unsupported
+            raise Unsupported('key tag reader runs past the RDATA')
+        self.values[name] = int.from_bytes(self.data[self.pos:self.pos + size], self.order)
+        self.pos += size
+
+    def __getitem__(self, k):
+        return self.values[k]
+
+
 def key_tag(ctx, report):
+    """the statements of DnsRecordDnskey.key_tag evaluated (sa.miniexec) over crafted RDATA and compared with the
+    transcription of RFC 4034 Appendix B; algorithm 1 (B.1) over sample moduli"""
+    from ..miniexec import Evaluator, Obj, Raised, Unsupported
     report.rule('C08.R3', 'key tag: 16 bit big-endian word sum, trailing byte << 8, carry fold, 16 bit mask; algorithm 1 rule')
     c = ctx.model.cls('DnsRecordDnskey')
     f = c.methods.get('key_tag')
@@ -43,49 +103,70 @@ def key_tag(ctx, report):
         return
     report.touch(f)
     cons = f.construct
-    src = ast.unparse(f.node)
-    report.count('C08.R3', 6)
-    # parser over the composed RDATA, big-endian
-    news = [n for n in ast.walk(f.node) if isinstance(n, ast.Call) and ast.unparse(n.func) == 'ParserBinary']
-    if not news or 'self.compose()' not in ast.unparse(news[0]):
-        report.add('C08.R3', cons + '@input', 'the key tag is not computed over the composed RDATA')
-    elif 'LITTLE' in ast.unparse(news[0]) or 'NATIVE' in ast.unparse(news[0]):
-        report.add('C08.R3', cons + '@byte-order', 'RDATA words must be read big-endian')
-    loops = [n for n in ast.walk(f.node) if isinstance(n, ast.While)]
-    word_ok = False
-    for lp in loops:
-        reads = [n for n in ast.walk(lp) if isinstance(n, ast.Call) and isinstance(n.func, ast.Attribute) and n.func.attr == 'parse_numeric']
-        adds = [n for n in ast.walk(lp) if isinstance(n, ast.AugAssign) and isinstance(n.op, ast.Add) and ast.unparse(n.target) == 'key_tag']
-        if len(reads) == 1 and len(reads[0].args) > 1 and ast.unparse(reads[0].args[1]) == '2' and len(adds) == 1 and \
-                not isinstance(adds[0].value, ast.BinOp) and 'unparsed_length > 1' in ast.unparse(lp.test):
-            word_ok = True
-    if not word_ok:
-        report.add('C08.R3', cons + '@words', 'the main loop must add each 16 bit word once while at least two bytes remain')
-    # trailing byte
-    tails = [n for n in f.node.body if isinstance(n, ast.If) and 'unparsed_length' in ast.unparse(n.test)]
-    if not tails:
-        report.add('C08.R3', cons + '@odd-byte', 'an odd trailing byte is not added at all')
-    else:
-        adds = [n for n in ast.walk(tails[0]) if isinstance(n, ast.AugAssign) and isinstance(n.op, ast.Add) and ast.unparse(n.target) == 'key_tag']
-        ok = False
-        for a in adds:
-            v = a.value
-            if isinstance(v, ast.BinOp) and ((isinstance(v.op, ast.LShift) and ast.unparse(v.right) == '8') or
-                                             (isinstance(v.op, ast.Mult) and '256' in (ast.unparse(v.left), ast.unparse(v.right)))):
-                ok = True
-        if not ok:
-            report.add('C08.R3', cons + '@odd-byte', 'the trailing byte of odd-length RDATA is added with weight 1; RFC 4034 App. B adds key[i] << 8 for even i '
-                                                     '(71 byte RDATA: 32514 instead of 16194)')
-    fold = [n for n in ast.walk(f.node) if isinstance(n, ast.AugAssign) and ast.unparse(n.target) == 'key_tag' and '>> 16' in ast.unparse(n.value)]
-    if len(fold) != 1 or ast.unparse(fold[0].value).replace(' ', '') not in ('key_tag>>16&65535', '(key_tag>>16)&65535'):
-        report.add('C08.R3', cons + '@fold', 'carry fold must be key_tag += (key_tag >> 16) & 0xffff')
-    rets = [ast.unparse(n.value).replace(' ', '') for n in ast.walk(f.node) if isinstance(n, ast.Return)]
-    if 'key_tag&65535' not in rets:
-        report.add('C08.R3', cons + '@mask', 'result must be masked with 0xffff')
-    if not any('modulus&16777215)>>8' in r or 'modulus>>8&65535' in r or '(self.key.params.modulus&16777215)>>8' in r for r in rets):
-        report.add('C08.R3', cons + '@rsamd5', 'algorithm 1: the tag is the most significant 16 of the least significant 24 bits of the modulus (RFC 4034 B.1)')
-    if 'RSAMD5' not in src:
-        report.add('C08.R3', cons + '@rsamd5', 'algorithm 1 is not special cased')
+    state = {}
+
+    def names(name):
+        if name == 'self.algorithm':
+            return state['alg']
+        if name.startswith('DnsSecAlgorithm.'):
+            return name.split('.', 1)[1]
+        if name.startswith('ByteOrder.'):
+            return name
+        if name == 'self.key.params.modulus':
+            return state['modulus']
+        raise Unsupported('free name %s' % name)
+
+    def hook(n, ev):
+        d = ast.unparse(n.func)
+        if d == 'self.compose':
+            state['composed'] = True
+            return state['rdata']
+        if d == 'ParserBinary':
+            data = ev.ev(n.args[0])
+            kw = {k.arg: ev.ev(k.value) for k in n.keywords}
+            order = kw.get('byte_order', 'ByteOrder.NETWORK')
+            big = order in ('ByteOrder.BIG_ENDIAN', 'ByteOrder.NETWORK')
+            return _TagParser(data, 'big' if big else 'little')
+        return NotImplemented
+
+    def run(alg, rdata=b'', modulus=0):
+        state.update(alg=alg, rdata=rdata, modulus=modulus, composed=False)
+        ev = Evaluator({}, hook, names)
+        return Evaluator.function(ev, f.node)
+    bad = {'even': [], 'odd': []}
+    try:
+        for rdata in key_tag_samples(ctx.thorough):
+            report.count('C08.R3')
+            got = run('ECDSAP256SHA256', rdata)
+            if not state['composed']:
+                report.add('C08.R3', cons + '@input', 'the key tag is not computed over the composed RDATA')
+                return
+            want = rfc4034_key_tag(rdata)
+            if got != want:
+                bad['odd' if len(rdata) & 1 else 'even'].append((rdata, got, want))
+        for modulus in (0x010203, 0xffffffffffffff, (1 << 1024) - 159, 0xabcdef0123456789, 0x80, 0x8000):
+            report.count('C08.R3')
+            got = run('RSAMD5', b'', modulus)
+            want = (modulus >> 8) & 0xffff
+            if got != want:
+                report.add('C08.R3', cons + '@rsamd5', 'algorithm 1: modulus ..%x gives key tag %s, RFC 4034 B.1 says %d (most significant 16 of the least '
+                                                        'significant 24 bits)' % (modulus & 0xffffff, got, want))
+                break
+    except (Unsupported, Raised) as e:
+        report.add('C08.R3', cons + '@tabulation', 'key_tag left the subset the tabulation understands: %s' % e)
+        return
+    if bad['even']:
+        rdata, got, want = bad['even'][0]
+        report.add('C08.R3', cons + '@value', '%d even-length RDATA samples get a wrong key tag, e.g. word sum 0x%x: %s instead of %d (RFC 4034 Appendix B)' % (
+            len(bad['even']), sum(int.from_bytes(rdata[i:i + 2], 'big') for i in range(0, len(rdata), 2)), got, want))
+    if bad['odd']:
+        rdata, got, want = bad['odd'][0]
+        if bad['even']:
+            pass        # already reported: the odd samples share the defect
+        else:
+            report.add('C08.R3', cons + '@odd-byte', 'the trailing byte of odd-length RDATA is not added as key[i] << 8 (RFC 4034 App. B): %d of the odd-length '
+                                                     'samples differ, e.g. %d byte RDATA gives %s instead of %d' % (len(bad['odd']), len(rdata), got, want))
+    report.sample({'rule': 'C08.R3', 'rdata_samples': len(key_tag_samples(ctx.thorough)), 'word_sums': 'both sides of every carry boundary, even and odd lengths'})
 
 
 def key_material(ctx, report):
